@@ -664,8 +664,8 @@ func (c *Chunker) buildSections(doc *model.Document) []*Section {
 		}
 	}
 
-	// Handle any remaining preamble content
-	if len(preambleContent) > 0 && len(sections) == 0 {
+	// Handle any remaining preamble content (no section was ever opened)
+	if len(preambleContent) > 0 && len(sectionStack) == 0 {
 		preambleSection := &Section{
 			Title:     "",
 			Path:      nil,
